@@ -51,8 +51,21 @@ fn start_watchdog(budget: Duration) {
     std::thread::spawn(move || {
         let mut last = sim::PROGRESS.load(Ordering::Relaxed);
         let mut since = Instant::now();
+        let mut run_idx = u64::MAX;
+        let mut run_since = Instant::now();
         loop {
             std::thread::sleep(Duration::from_millis(200));
+            // a run that keeps producing events for a minute of wall time is as stuck as
+            // one that produces none (runs take milliseconds)
+            let cur = sim::CURRENT_INDEX.load(Ordering::Relaxed);
+            if cur != run_idx {
+                run_idx = cur;
+                run_since = Instant::now();
+            } else if cur != u64::MAX && run_since.elapsed() > budget * 6 {
+                println!("H {}", cur);
+                let _ = std::io::stdout().flush();
+                std::process::exit(3);
+            }
             let now = sim::PROGRESS.load(Ordering::Relaxed);
             if now != last {
                 last = now;
